@@ -391,3 +391,35 @@ def misc(ctx, L):
                     ctx.holds("R-KEY-ROLE", inst)
                 else:
                     ctx.violated("R-KEY-ROLE", f, inst, "buffer key is %s" % pretty(key)[:100], e.node)
+
+
+def copy_rule(ctx, L, rule="R-MPG-COPY"):
+    """a buffered group holds its own copy of the payload (it is sent later, the caller may reuse its list)"""
+    f = L.send_pgn
+    n = 0
+    for r in runs(ctx, f, unroll=1):
+        for i, e in r.effects():
+            grp = None
+            if e.kind == "store" and e.value[0] == "dict" and root_field(e.target) == TABLE:
+                c = dict(e.value[1]).get(("c", "cpg"))
+                if c is not None and c[0] == "list" and len(c[1]) == 1 and c[1][0][0] == "dict":
+                    grp = dict(c[1][0][1])
+            if e.kind == "call" and mname(e.value) == "append" and root_field(e.value[1][1]) == TABLE and e.value[2] and e.value[2][0][0] == "dict":
+                grp = dict(e.value[2][0][1])
+            if grp is None:
+                continue
+            n += 1
+            d = grp.get(("c", "data"))
+            inst = "buffered group carries a copy of the payload and its true length"
+            ok = d is not None and ((d[0] == "call" and d[1] in (("attr", ("p", "data"), "copy"), ("glob", "list"), ("glob", "bytearray"), ("glob", "bytes")))
+                                    or (d[0] == "sub" and d[1] == ("p", "data") and d[2][0] == "slice" and d[2][1] is None and d[2][2] is None))
+            if ok and d[0] == "call" and d[1][0] == "glob":
+                ok = d[2] == (("p", "data"),)
+            if not ok:
+                ctx.violated(rule, f, inst, "the group keeps a reference to the caller's list (%s): data changed after send_pgn returned goes out instead" % pretty(d), e.node)
+            elif grp.get(("c", "data_length")) != LEN:
+                ctx.violated(rule, f, inst, "length field is %s, not len(data)" % pretty(grp.get(("c", "data_length"))), e.node)
+            else:
+                ctx.holds(rule, inst)
+    if n < 2:
+        ctx.unknown(rule, "buffered groups not found (%d)" % n)
